@@ -369,6 +369,8 @@ class ListGen(object):
                 cur[lf["name"]] = 0
             elif r < 0.6 and lf["randsz"]:
                 ops.append({"op": "l_append", "var": "o", "path": [lf["name"]], "value": rnd.randint(0, 3)})
+            if rnd.random() < 0.1:
+                ops.append({"op": "l_selfassign", "var": "o", "path": [rnd.choice(lists)["name"]]})
             normal_at = len(ops)
             ops.append({"op": "randomize", "var": "o", "inline": [["dyn", [], self.dyn_block]] if self.dyn_block and rnd.random() < 0.8 else None})
             # a free-standing call over one random scalar whose inline block refers to an element by constant index (often the
